@@ -541,7 +541,7 @@ itself leaves the store of the body -/
 theorem closeStream_idem (σ : St) (id : Nat) : closeStream (closeStream σ id) id = closeStream σ id := by
   simp [closeStream]
 
-private theorem set_false_of_closed (l : List Bool) (id : Nat) (h : l[id]? = some false) : l.set id false = l := by
+theorem set_false_of_closed (l : List Bool) (id : Nat) (h : l[id]? = some false) : l.set id false = l := by
   apply List.ext_getElem?
   intro k
   by_cases hk : id = k
